@@ -12,6 +12,13 @@ CHECKS = {
             'temperature with the configured value in every batching, also inside features.',
             'Coverage is the stated lattice only; outside-ness of points is decided by construction of the worlds (all features at x>=0).',
             'DESIGN.md section 3 C03'),
+    'C01': ('model_checking', 'E2',
+            'bounded exhaustive enumeration of request lists (all lists up to length 3|4 over 8 atoms) and explicit-state search over operation histories (all sequences up to depth 3|5) on the real library',
+            'Every request list up to the bound is issued at every lattice point of four rich worlds through the 2-D and 3-D interface and every block is compared bit-for-bit with the '
+            'stand-alone query and the single-property entry points; every operation history up to the bound (queries through all entry points, constructing/querying/destroying a second '
+            'world) is replayed on fresh objects and the canonical state (probe answers, RNG engine, other world alive) is compared with a history-free world.',
+            'Alphabets: 8 request atoms, 4 worlds, 9 operations; nothing beyond the stated list length / history depth is claimed. All traces are implementation traces.',
+            'DESIGN.md section 3 C01'),
 }
 NOT_YET = {}
 
